@@ -34,6 +34,30 @@ func runFamQ(c *Ctx) {
 	if c.wants("C21", "C22") {
 		famqComponents(c)
 	}
+	famqSystem(c)
+}
+
+func famqSystem(c *Ctx) {
+	sh := c.newShard("qsys", runnerQ, "caseQ", "mismatches", "violations")
+	sh.limit = 12
+	fixed := treeFixed()
+	add := func(kind string) {
+		term, desc, key, nontrivial := runSysScenario(c, fixed, kind)
+		if term == "" {
+			return
+		}
+		sh.add(c, term, desc)
+		c.count([]string{"C20", "C21", "C22", "C23"}, "sys:"+key, nontrivial, desc)
+	}
+	for i := 0; i < c.pick(12, 200); i++ {
+		add("d7")
+	}
+	for i := 0; i < c.pick(16, 300); i++ {
+		add("starve")
+	}
+	for i := 0; i < c.pick(140, 4000); i++ {
+		add("random")
+	}
 }
 
 func famqComponents(c *Ctx) {
